@@ -1,0 +1,12 @@
+//go:build verif
+
+package zh
+
+// VerifTick - when set, called once per token read and per block-loop iteration of the parser
+var VerifTick func()
+
+func verifTick() {
+	if VerifTick != nil {
+		VerifTick()
+	}
+}
